@@ -84,6 +84,8 @@ def run(c):
                 continue
             if min(np.std(v) for v in list(ceil[i][0].dissimilarities) + list(test[i][0].dissimilarities)) < 1e-6:
                 return dict(skip=True)      # a constant restricted RDM has no correlation: ill-conditioned input
+            if c['method'] == 'corr' and np.nanstd(pool_rdm(ceil[i][0], 'corr').dissimilarities) < 1e-9:
+                return dict(skip=True)      # the normalised training RDMs cancel exactly: the pooled RDM is constant, 0/0
             use.append(i)
             folds.append(dict(train=[[None if math.isnan(x) else float(x) for x in v] for v in ceil[i][0].dissimilarities],
                               train_keys=[int(x) for x in ceil[i][0].pattern_descriptors['index']],
